@@ -1280,3 +1280,22 @@ def m_serialize_str(eng, call, args):
 @model("serde::de::Error::custom", "serde::ser::Error::custom")
 def m_serde_custom(eng, call, args):
     return mk("serde_error", *args)
+
+
+@model("std::slice::<impl [T]>::split_at", "std::slice::<impl [T]>::split_at_mut")
+def m_split_at(eng, call, args):
+    v = val(eng, call, args[0])
+    n = eng.length(call["state"], v)
+    call["pre"] = ("le", args[1], n)
+    return mk("agg", "tuple", mk("refv", mk_slice(eng, call, v, Int(0), args[1])), mk("refv", mk_slice(eng, call, v, args[1], n)))
+
+
+@model("std::slice::<impl [T]>::first", "std::slice::<impl [T]>::last")
+def m_first_last(eng, call, args):
+    v = val(eng, call, args[0])
+    n = eng.length(call["state"], v)
+    c = binop("Eq", n, Int(0), "usize")
+    which = call["norm_names"][0].split("::")[-1]
+    from .sym import index as sym_index
+    e = sym_index(v, Int(0)) if which == "first" else sym_index(v, binop("Sub", n, Int(1), "usize"))
+    return two_way("std::option::Option", [(0, "None", [], [(c, "eq", 1)]), (1, "Some", [mk("refv", e)], [(c, "eq", 0)])])
